@@ -370,6 +370,21 @@ func (r *rewriter) rewriteForRange(pkg loader.Pkg, fr *ast.RangeStmt) *ast.ForSt
 	return X.ForStmt(init, cond, nil, body)
 }
 
+// declaresAny reports if any name is declared by a stmt of the block itself
+func declaresAny(block *ast.BlockStmt) bool {
+	for _, stmt := range block.List {
+		switch stmt := stmt.(type) {
+		case *ast.AssignStmt:
+			if stmt.Tok == token.DEFINE {
+				return true
+			}
+		case *ast.DeclStmt:
+			return true
+		}
+	}
+	return false
+}
+
 // declaresInBlock reports if name is declared again by a stmt of the block itself
 func declaresInBlock(block *ast.BlockStmt, name ast.Expr) bool {
 	id, ok := name.(*ast.Ident)
